@@ -17,6 +17,11 @@ from .bootstrap import VERIF_ROOT, Inconclusive
 
 NSHARDS_DEFAULT = int(os.environ.get('VERIF_SHARDS', '16'))
 SHARD_TIMEOUT = {'quick': 900, 'thorough': 5400}
+CASE_LIMIT = {'quick': 60, 'thorough': 120}
+
+
+class CaseTimeout(BaseException):
+    pass
 
 
 def h64(s: str) -> str:
@@ -116,13 +121,37 @@ def run_shard(pid, tier, seed, shard, nshards, out):
         mod = load_module(pid)
         if hasattr(mod, 'setup'):
             mod.setup(ctx)
+        import signal, statistics
+        limit = CASE_LIMIT[tier]
+        durations = []
+
+        def on_alarm(signum, frame):
+            raise CaseTimeout()
+        signal.signal(signal.SIGALRM, on_alarm)
         for case in mod.generate(tier, seed, shard, nshards):
             ctx.case = case
+            tc = time.time()
+            signal.alarm(limit)
             try:
                 mod.judge(case, ctx)
+                signal.alarm(0)
+                durations.append(time.time() - tc)
+            except CaseTimeout:
+                signal.alarm(0)
+                med = statistics.median(durations) if durations else 0.05
+                if limit > 1000 * max(med, 0.01):
+                    ctx.violation(f'{pid}/non-termination', f'one case did not finish within {limit} s (median case time in this shard {med:.3f} s)', {})
+                else:
+                    ctx.harness_errors.append({'case': jsonable(case), 'traceback': f'case exceeded {limit} s (median {med:.3f} s): inconclusive'})
+                ctx.count('case_timeouts')
+                if ctx.counters['case_timeouts'] >= 2:
+                    ctx.count('shard_aborted_after_repeated_timeouts')
+                    break
             except Inconclusive:
+                signal.alarm(0)
                 raise
             except Exception:
+                signal.alarm(0)
                 ctx.harness_errors.append({'case': jsonable(case), 'traceback': traceback.format_exc()[-3000:]})
                 ctx.count('harness_errors')
         if hasattr(mod, 'teardown'):
